@@ -1152,6 +1152,10 @@ M('C14', 'Suzuki constant written with a named cube root (equivalent)', TEBD,
   "            t1 = 1.0 / (4.0 - 4.0 ** (1 / 3.0))\n", "            cbrt4 = 4.0 ** (1.0 / 3.0)\n            t1 = 1.0 / (4.0 - cbrt4)\n",
   None, expect='silent')
 
+M('C04', 'python tensordot: accumulating gemv calls lose trans=True (round-4 seed a)', NPC,
+  "        kw_no_overwrite = {'trans': True}\n        kw_overwrite.update(kw_no_overwrite)\n", "        kw_no_overwrite = {'trans': True}\n",
+  'PAIR-accumulate-options')
+
 # ---------------------------------------------------------------- C16 / C19
 M('C16', 'GMRES restart: relative residual norm used for normalisation (round-3 seed b)', KRY,
   """        self.total_error.append([npc.norm(self.rs[-1]) / self.b_norm])
